@@ -1,6 +1,9 @@
-(* C03: the reader loop on streams of encoder frames.
-   wait lemma (a proper prefix of a frame, at least 6 bytes long, is kept untouched), the reader loop
-   on whole frames followed by such a prefix, and the induction over the reads. *)
+(* C03: the reader loop on streams of encoder frames with marker-free junk, under EVERY partition of
+   the byte stream into reads.
+   - wait: decode of junk ++ proper prefix of a frame consumes the junk only (frame_ok_wait); a buffer
+     without a whole marker keeps its trailing marker prefix (decode_no_marker, marker_tail lemmas);
+   - deliver: decode of junk ++ frame ++ anything consumes exactly junk ++ frame (RoundTripL.frame_ok_decode);
+   - reader_loop on any prefix of a stream (loop_prefix), induction over the reads (run_any). *)
 From Coq Require Import ZArith NArith List Bool Lia ZifyBool.
 From AF Require Import Base.Sx Py.Str Fix.Codec Fix.WfMsg Lemmas.StrB Lemmas.RoundTripL.
 Import ListNotations.
@@ -8,32 +11,26 @@ Open Scope N_scope.
 
 (* ------------------------------------------------------------------ the wait lemma *)
 
-Lemma prefixb_app_short : forall p a b, prefixb p (a ++ b) = true -> (length p <= length a)%nat -> prefixb p a = true.
+Lemma decode_fields_few : forall G bs rawlen idx flen enc fields, (length fields < 3)%nat ->
+  decode_fields G bs true rawlen idx false flen enc fields = Ok (None, Z.of_nat idx, None).
 Proof.
-  induction p as [|x p IH]; intros a b H L; [reflexivity|].
-  destruct a as [|y a]; cbn in *; [lia|].
-  apply andb_true_iff in H as [H1 H2]. rewrite H1. cbn. apply (IH a b H2). lia.
+  intros G bs rawlen idx flen enc fields H. destruct fields as [|a [|b [|c r]]]; try reflexivity. cbn in H. lia.
 Qed.
 
-Lemma decode_fields_few : forall G bs rawlen idx enc fields, (length fields < 3)%nat ->
-  decode_fields G bs true rawlen idx enc fields = Ok (None, Z.of_nat idx, None).
+Lemma decode_fields_short : forall G bs rawlen idx flen enc t0 f1v bl Y,
+  cfree 61 t0 -> py_int f1v = Some bl -> (0 <= bl)%Z ->
+  (rawlen - Z.of_nat idx < zlen (field t0 bs) + zlen (field T9 f1v) + 9 + bl)%Z ->
+  decode_fields G bs true rawlen idx false flen enc (field t0 bs :: field T9 f1v :: Y) = Ok (None, Z.of_nat idx, None).
 Proof.
-  intros G bs rawlen idx enc fields H. destruct fields as [|a [|b [|c r]]]; try reflexivity. cbn in H. lia.
-Qed.
-
-Lemma decode_fields_short : forall G bs rawlen idx enc t0 f1v bl Y,
-  cfree 61 t0 -> py_int f1v = Some bl ->
-  (rawlen < zlen (field t0 bs) + zlen (field T9 f1v) + 9 + bl)%Z ->
-  decode_fields G bs true rawlen idx enc (field t0 bs :: field T9 f1v :: Y) = Ok (None, Z.of_nat idx, None).
-Proof.
-  intros G bs rawlen idx enc t0 f1v bl Y Ht0 Hbl Hlen.
+  intros G bs rawlen idx flen enc t0 f1v bl Y Ht0 Hbl Hpos Hlen.
   destruct Y as [|y ys]; [reflexivity|].
   unfold decode_fields.
   unfold field at 1. rewrite (split1_field 61 t0 bs Ht0). rewrite str_eqb_refl. cbn [negb].
   unfold field at 1, T9. rewrite (split1_field 61 [57] f1v) by (intros [E|[]]; discriminate).
   fold T9. rewrite str_eqb_refl. cbn [negb]. rewrite Hbl.
   fold (field t0 bs). fold (field T9 f1v).
-  destruct (rawlen <? _)%Z eqn:E; [reflexivity | lia].
+  destruct (bl <? 0)%Z eqn:E0; [lia|].
+  destruct (rawlen - Z.of_nat idx <? _)%Z eqn:E; [reflexivity | lia].
 Qed.
 
 Definition strip_last (l : list str) : list str :=
@@ -61,275 +58,320 @@ Qed.
 Lemma cfree_prefix : forall c a b, cfree c (a ++ b) -> cfree c a.
 Proof. intros c a b H. apply cfree_app in H. tauto. Qed.
 
-(* the field list of any proper prefix of a good frame is rejected as incomplete, whatever offset it
-   has in the buffer, as long as the buffer is shorter than the frame's declared length *)
-Lemma wait_fields : forall G bs F dm P Q rawlen idx,
-  frame_ok G bs F dm -> F = P ++ Q -> Q <> [] -> (rawlen < zlen F)%Z ->
-  decode_fields G bs true rawlen idx P (fields_of P) = Ok (None, Z.of_nat idx, None).
+(* the field list of any proper prefix of a good frame is rejected as incomplete *)
+Lemma wait_fields : forall G bs F dm P Q rawlen idx flen,
+  frame_ok G bs F dm -> F = P ++ Q -> Q <> [] -> (rawlen - Z.of_nat idx < zlen F)%Z ->
+  decode_fields G bs true rawlen idx false flen P (fields_of P) = Ok (None, Z.of_nat idx, None).
 Proof.
-  intros G bs F dm P Q rawlen idx [f1v [f2 [rest [bl [st H]]]]] EF HQ Hraw. cbv zeta in H.
-  destruct H as [HF [Hsoh [_ [_ [Hbl [Hlen _]]]]]].
+  intros G bs F dm P Q rawlen idx flen [f1v [f2 [rest [bl [st H]]]]] EF HQ Hraw. cbv zeta in H.
+  destruct H as [HF [Hsoh [_ [Hbl [Hpos [Hlen _]]]]]].
   rewrite fields_of_strip.
   pose proof (Forall_inv Hsoh) as S0. pose proof (Forall_inv (Forall_inv_tail Hsoh)) as S1.
-  assert (HlenP : (rawlen < zlen (field T8 bs) + zlen (field T9 f1v) + 9 + bl)%Z) by (rewrite Hlen; exact Hraw).
+  assert (HlenP : (rawlen - Z.of_nat idx < zlen (field T8 bs) + zlen (field T9 f1v) + 9 + bl)%Z) by (rewrite Hlen; exact Hraw).
   assert (H1 : P ++ Q = flat (field T8 bs :: field T9 f1v :: f2 :: rest)) by congruence.
   clear Hlen EF HF Hsoh.
   remember (field T8 bs) as f0 eqn:Ef0. remember (field T9 f1v) as f1 eqn:Ef1.
   rewrite (flat_cons f0), (flat_cons f1) in H1. remember (flat (f2 :: rest)) as R eqn:ER. clear ER.
   apply app_eq_app in H1 as [l [[E1 E2]|[E1 E2]]].
-  - (* P = f0 ++ l *)
-    destruct l as [|c l].
+  - destruct l as [|c l].
     + rewrite app_nil_r in E1. subst P. rewrite (split_on_free 1 _ S0).
       apply decode_fields_few. apply Nat.lt_succ_r. apply strip_last_short. cbn. lia.
     + cbn [app] in E2. injection E2 as Ec E2. subst c.
       apply app_eq_app in E2 as [l2 [[E3 E4]|[E3 E4]]].
-      * (* f1 = l ++ l2 *)
-        subst P. rewrite (split_on_app_sep 1 _ _ S0). rewrite E3 in S1.
+      * subst P. rewrite (split_on_app_sep 1 _ _ S0). rewrite E3 in S1.
         rewrite (split_on_free 1 _ (cfree_prefix _ _ _ S1)).
         apply decode_fields_few. apply Nat.lt_succ_r. apply strip_last_short. cbn. lia.
-      * (* l = f1 ++ l2 *)
-        destruct l2 as [|c l2].
+      * destruct l2 as [|c l2].
         -- rewrite app_nil_r in E3. subst l P. rewrite (split_on_app_sep 1 _ _ S0), (split_on_free 1 _ S1).
            apply decode_fields_few. apply Nat.lt_succ_r. apply strip_last_short. cbn. lia.
         -- cbn [app] in E4. injection E4 as Ec E4. subst c l P.
            rewrite (split_on_app_sep 1 _ _ S0), (split_on_app_sep 1 _ _ S1).
            destruct (strip_last_two f0 f1 (split_on 1 l2) (split_on_nonempty 1 l2)) as [Y EY].
-           rewrite EY. subst f0 f1. apply (decode_fields_short G bs _ _ _ T8 f1v bl Y); try assumption.
+           rewrite EY. subst f0 f1. apply (decode_fields_short G bs _ _ _ _ T8 f1v bl Y); try assumption.
            apply cfreeb_spec. reflexivity.
-  - (* f0 = P ++ l *)
-    rewrite E1 in S0. rewrite (split_on_free 1 _ (cfree_prefix _ _ _ S0)).
+  - rewrite E1 in S0. rewrite (split_on_free 1 _ (cfree_prefix _ _ _ S0)).
     apply decode_fields_few. apply Nat.lt_succ_r. apply strip_last_short. cbn. lia.
 Qed.
 
-
-Lemma frame_ok_prefix_marks : forall G bs F dm P Q,
-  frame_ok G bs F dm -> F = P ++ Q -> (6 <= length P)%nat ->
-  prefixb MARK P = true /\ find_sub MARK (skipn 5 P) = None.
-Proof.
-  intros G bs F dm P Q [f1v [f2 [rest [bl [st H]]]]] EF HP. cbv zeta in H.
-  destruct H as [_ [_ [Hmark [Hnom _]]]]. split.
-  - rewrite EF in Hmark. apply (prefixb_app_short _ _ _ Hmark). exact HP.
-  - rewrite EF, (skipn_app_le 5 P Q) in Hnom by lia. apply (find_sub_none_prefix _ _ _ Hnom).
-Qed.
-
-(* wait lemma: a proper prefix (at least 6 bytes) of a good frame is left in the buffer *)
-Lemma frame_ok_wait : forall G bs F dm P Q,
-  frame_ok G bs F dm -> F = P ++ Q -> Q <> [] -> (6 <= length P)%nat ->
-  decode G bs P true = Ok (None, 0%Z, None).
-Proof.
-  intros G bs F dm P Q Hok EF HQ HP.
-  destruct (frame_ok_prefix_marks G bs F dm P Q Hok EF HP) as [HmP HnP].
-  rewrite (decode_nocut G bs P true HmP HnP).
-  apply (wait_fields G bs F dm P Q (zlen P) 0 Hok EF HQ).
-  rewrite EF, zlen_app. unfold zlen. destruct Q; [contradiction | cbn [length]; lia].
-Qed.
-
-(* ------------------------------------------------------------------ the reader loop *)
-
-Definition swap (fm : str * message) : message * str := (snd fm, fst fm).
-
-Definition frames_ok (G : group_table) (bs : str) (fms : list (str * message)) : Prop :=
-  Forall (fun fm => frame_ok G bs (fst fm) (snd fm)) fms.
-
-(* what may be left in the buffer: nothing, or at least 6 bytes of a good frame that is not complete *)
-Definition wait_ok (G : group_table) (bs : str) (P : str) : Prop :=
-  P = [] \/ exists F dm Q, frame_ok G bs F dm /\ F = P ++ Q /\ Q <> [] /\ (6 <= length P)%nat.
+Lemma frame_ok_shape : forall G bs F dm, frame_ok G bs F dm -> frame_shape F.
+Proof. intros G bs F dm [f1v [f2 [rest [bl [st H]]]]]. cbv zeta in H. tauto. Qed.
 
 Lemma frame_ok_facts : forall G bs F dm, frame_ok G bs F dm -> prefixb MARK F = true /\ (6 <= length F)%nat.
 Proof.
-  intros G bs F dm [f1v [f2 [rest [bl [st H]]]]]. cbv zeta in H. destruct H as [_ [_ [Hm _]]].
-  split; [assumption | apply (prefixb_length _ _ Hm)].
+  intros G bs F dm H. pose proof (frame_ok_shape _ _ _ _ H) as HS.
+  split; [exact (proj1 HS) | apply frame_shape_len; assumption].
 Qed.
 
-Lemma wait_ok_mark : forall G bs P, wait_ok G bs P -> P = [] \/ prefixb MARK P = true.
+(* wait lemma: marker-free junk followed by a proper prefix (at least 6 bytes) of a good frame: the junk is
+   consumed, no byte of the frame is *)
+Lemma frame_ok_wait : forall G bs J F dm P Q,
+  find_sub MARK J = None -> frame_ok G bs F dm -> F = P ++ Q -> Q <> [] -> (6 <= length P)%nat ->
+  decode G bs (J ++ P) true = Ok (None, zlen J, None).
 Proof.
-  intros G bs P [E|[F [dm [Q [Hok [EF [_ HP]]]]]]]; [left; assumption | right].
-  destruct (frame_ok_facts _ _ _ _ Hok) as [Hm _]. rewrite EF in Hm. apply (prefixb_app_short _ _ _ Hm). exact HP.
+  intros G bs J F dm P Q HJ Hok EF HQ HP.
+  rewrite (decode_prefix_gen G bs J F P Q true HJ (frame_ok_shape _ _ _ _ Hok) EF HQ HP).
+  apply (wait_fields G bs F dm P Q _ (length J) _ Hok EF HQ).
+  rewrite EF, !zlen_app. unfold zlen. destruct Q; [contradiction | cbn [length]; lia].
 Qed.
 
-Lemma skipn_exact : forall {A} (a b : list A), skipn (length a) (a ++ b) = b.
-Proof. induction a; intros; cbn; [reflexivity | apply IHa]. Qed.
+(* ------------------------------------------------------------------ buffers without a whole marker *)
 
-Lemma reader_loop_frames : forall G bs fms, frames_ok G bs fms ->
-  forall P, wait_ok G bs P -> forall fuel acc, (length fms < fuel)%nat ->
-  reader_loop G bs fuel (concat (map fst fms) ++ P) acc = (P, rev acc ++ map swap fms, 0).
+(* junk followed by at most 5 bytes of a marker contains no marker *)
+Lemma junk_partial_no_mark : forall J p, find_sub MARK J = None -> (p <= 5)%nat ->
+  find_sub MARK (J ++ firstn p MARK) = None.
 Proof.
-  intros G bs fms. induction fms as [|[F dm] fms IH]; intros Hok P HP fuel acc Hfuel.
-  - destruct fuel as [|f]; [lia|]. cbn [map concat app reader_loop].
-    assert (Hd : decode G bs P true = Ok (None, 0%Z, None)).
-    { destruct HP as [E|[F [dm [Q [HF [EF [HQ HL]]]]]]]; [subst P; reflexivity|].
-      apply (frame_ok_wait G bs F dm P Q HF EF HQ HL). }
-    rewrite Hd. cbn. rewrite app_nil_r. reflexivity.
-  - destruct fuel as [|f]; [lia|]. inversion Hok as [|? ? HF Hok']; subst. cbn [fst snd] in HF.
-    cbn [map concat fst]. rewrite <- app_assoc. cbn [reader_loop].
-    set (R := concat (map fst fms) ++ P).
-    assert (HR : R = [] \/ prefixb MARK R = true).
-    { unfold R. destruct fms as [|[F2 dm2] fms2].
-      - cbn. apply (wait_ok_mark G bs P HP).
-      - right. inversion Hok' as [|? ? HF2 _]; subst. cbn [fst snd map concat] in *.
-        destruct (frame_ok_facts _ _ _ _ HF2) as [Hm _]. rewrite <- app_assoc. apply prefixb_app_r. assumption. }
-    rewrite (frame_ok_decode G bs F dm R true HF HR).
-    destruct (frame_ok_facts _ _ _ _ HF) as [_ HL].
-    assert (Hpos : (0 <? zlen F)%Z = true) by (unfold zlen; lia). rewrite Hpos.
-    unfold zlen. rewrite Nat2Z.id, skipn_exact.
-    unfold R. rewrite (IH Hok' P HP f ((dm, F) :: acc)) by (cbn [length] in Hfuel; lia).
-    cbn [rev map swap fst snd]. rewrite <- app_assoc. reflexivity.
+  intros J p HJ Hp. destruct p as [|p]; [cbn [firstn]; rewrite app_nil_r; exact HJ|].
+  change (firstn (S p) MARK) with (56 :: firstn p [61; 70; 73; 88; 46]).
+  rewrite (find_sub_junk_gen 56 [61; 70; 73; 88; 46] J _ MARK_no_border HJ).
+  assert (H : find_sub (56 :: [61; 70; 73; 88; 46]) (56 :: firstn p [61; 70; 73; 88; 46]) = None).
+  { do 5 (destruct p as [|p]; [reflexivity|]). lia. }
+  rewrite H. reflexivity.
 Qed.
 
-Lemma frames_length : forall G bs fms, frames_ok G bs fms -> (length fms <= length (concat (map fst fms)))%nat.
+Lemma ends_with_spec : forall p s, ends_with p s = true -> exists pre, s = pre ++ p.
 Proof.
-  intros G bs fms H. induction H as [|[F dm] fms HF _ IH]; [cbn; lia|].
-  cbn [map concat fst length]. rewrite app_length. destruct (frame_ok_facts _ _ _ _ HF) as [_ HL]. cbn [fst] in HL. lia.
+  intros p s H. unfold ends_with in H. apply prefixb_spec in H as [r E].
+  exists (rev r). rewrite <- (rev_involutive s), E, rev_app_distr, rev_involutive. reflexivity.
 Qed.
 
-(* one read that completes the buffer to whole frames plus a harmless remainder *)
-Lemma reader_step_frames : forall G bs buf chunk fms P,
-  frames_ok G bs fms -> wait_ok G bs P -> buf ++ chunk = concat (map fst fms) ++ P ->
-  reader_step G bs buf chunk = (P, map swap fms, 0).
+Lemma marker_tail_from_spec : forall k raw, (marker_tail_from k raw <= k)%nat
+  /\ exists pre, raw = pre ++ firstn (marker_tail_from k raw) MARK.
 Proof.
-  intros G bs buf chunk fms P Hok HP E. unfold reader_step. rewrite E.
-  rewrite (reader_loop_frames G bs fms Hok P HP); [reflexivity|].
-  pose proof (frames_length G bs fms Hok). rewrite app_length. lia.
+  induction k as [|k IH]; intro raw.
+  - split; [reflexivity|]. exists raw. cbn. rewrite app_nil_r. reflexivity.
+  - cbn [marker_tail_from]. destruct (ends_with (firstn (S k) MARK) raw) eqn:E.
+    + split; [lia|]. apply ends_with_spec. assumption.
+    + destruct (IH raw) as [A B]. split; [lia | assumption].
 Qed.
 
-(* any grouping of whole frames into reads: every frame is delivered, in order, nothing is left *)
-Theorem whole_frames : forall G bs (groups : list (list (str * message))),
-  Forall (frames_ok G bs) groups ->
-  reader_run G bs [] (map (fun g => concat (map fst g)) groups)
-  = ([], map swap (concat groups), map (fun _ => 0) groups).
+(* what stays in the buffer: its last marker_tail bytes, a proper prefix of the marker *)
+Lemma marker_tail_spec : forall raw, exists k pre, marker_tail raw = k /\ (k <= 5)%nat
+  /\ raw = pre ++ firstn k MARK /\ length (firstn k MARK) = k.
 Proof.
-  intros G bs groups H. induction H as [|g groups Hg _ IH]; [reflexivity|].
-  cbn [map reader_run].
-  rewrite (reader_step_frames G bs [] _ g [] Hg (or_introl eq_refl)) by (rewrite app_nil_r; reflexivity).
-  rewrite IH. cbn [concat]. rewrite map_app. reflexivity.
+  intro raw. destruct (marker_tail_from_spec 5 raw) as [A [pre B]].
+  exists (marker_tail raw), pre. unfold marker_tail in *. repeat split; try assumption.
+  rewrite firstn_length. cbn [length MARK]. lia.
 Qed.
 
-(* ------------------------------------------------------------------ arbitrary chunkings *)
-
-Lemma cut_ok_zero : forall frames, cut_ok frames 0 = true.
-Proof. destruct frames; reflexivity. Qed.
-
-Lemma cut_ok_skip : forall f fs pos, (length f <= pos)%nat -> cut_ok (f :: fs) pos = cut_ok fs (pos - length f).
+(* junk followed by the first p (1..5) bytes of a marker: exactly these p bytes stay *)
+Lemma marker_tail_partial : forall J p, (1 <= p <= 5)%nat -> marker_tail (J ++ firstn p MARK) = p.
 Proof.
-  intros f fs pos H. cbn [cut_ok]. destruct (Nat.eqb pos 0) eqn:E.
-  - apply Nat.eqb_eq in E. subst pos. replace (0 - length f)%nat with 0%nat by lia. symmetry. apply cut_ok_zero.
-  - assert (E2 : Nat.ltb pos (length f) = false) by (apply Nat.ltb_ge; assumption). rewrite E2. reflexivity.
+  intros J p Hp. unfold marker_tail, marker_tail_from, ends_with.
+  rewrite rev_app_distr.
+  destruct p as [|[|[|[|[|[|p]]]]]]; try lia; cbn; reflexivity.
 Qed.
 
-Lemma cut_ok_shift : forall j frames x,
-  cut_ok frames (length (concat (firstn j frames)) + x) = cut_ok (skipn j frames) x.
+(* a decode that returns no message: if it consumed bytes the loop looks once more at what is left,
+   which waits without consuming anything *)
+Lemma reader_loop_wait : forall G bs f buf acc n,
+  decode G bs buf true = Ok (None, Z.of_nat n, None) ->
+  decode G bs (skipn n buf) true = Ok (None, 0%Z, None) ->
+  (0 < n -> 1 <= f)%nat ->
+  reader_loop G bs (S f) buf acc = (skipn n buf, rev acc, 0).
 Proof.
-  induction j as [|j IH]; intros frames x; [reflexivity|].
-  destruct frames as [|f fs]; [reflexivity|].
-  cbn [firstn skipn concat]. rewrite app_length, cut_ok_skip by lia.
-  replace (length f + length (concat (firstn j fs)) + x - length f)%nat with (length (concat (firstn j fs)) + x)%nat by lia.
-  apply IH.
+  intros G bs f buf acc n H H2 Hf. cbn [reader_loop]. rewrite H.
+  destruct (0 <? Z.of_nat n)%Z eqn:E.
+  - rewrite Nat2Z.id. destruct f as [|f']; [lia|]. cbn [reader_loop]. rewrite H2. reflexivity.
+  - assert (n = 0%nat) by lia. subst n. reflexivity.
 Qed.
 
-Lemma cut_positions_shift : forall K cs a, cut_positions (K + a) cs = map (Nat.add K) (cut_positions a cs).
+(* a proper prefix of the marker alone in the buffer: nothing is consumed *)
+Lemma decode_marker_prefix : forall G bs k, (k <= 5)%nat ->
+  decode G bs (firstn k MARK) true = Ok (None, 0%Z, None).
 Proof.
-  intros K cs. induction cs as [|c cs IH]; intro a; [reflexivity|].
-  cbn [cut_positions map]. rewrite <- Nat.add_assoc. rewrite IH. reflexivity.
+  intros G bs k Hk.
+  assert (H : find_sub MARK (firstn k MARK) = None) by (apply (junk_partial_no_mark [] k eq_refl Hk)).
+  rewrite (decode_no_marker G bs _ H).
+  do 6 (destruct k as [|k]; [reflexivity|]). lia.
 Qed.
 
-(* a prefix of the stream that ends at an allowed offset = whole frames + an allowed remainder *)
-Lemma decompose : forall frames B R,
-  B ++ R = concat frames -> cut_ok frames (length B) = true ->
-  exists j P', B = concat (firstn j frames) ++ P' /\ P' ++ R = concat (skipn j frames)
-    /\ (P' = [] \/ ((6 <= length P')%nat /\ exists F rest Q, skipn j frames = F :: rest /\ F = P' ++ Q /\ Q <> [])).
+(* ------------------------------------------------------------------ the reader loop on a stream prefix *)
+
+Definition seg_ok (G : group_table) (bs : str) (s : seg) : Prop :=
+  find_sub MARK (fst s) = None /\ frame_ok G bs (fst (snd s)) (snd (snd s)).
+
+(* what the buffer holds between two reads: a proper prefix of the marker (the end of junk, or the first
+   bytes of the next frame), or at least 6 bytes of the next frame, which is not complete *)
+Definition wait_state (B : str) (segs : list seg) : Prop :=
+  marker_prefix B
+  \/ exists F dm rest Q, segs = ([], (F, dm)) :: rest /\ F = B ++ Q /\ Q <> [] /\ (6 <= length B)%nat.
+
+Lemma prefix_firstn : forall {A} (l l2 M r : list A), l ++ l2 = M ++ r -> (length l <= length M)%nat -> l = firstn (length l) M.
 Proof.
-  induction frames as [|f fs IH]; intros B R E Hc.
-  - cbn in E. apply app_nil_both in E as [EB ER]. subst. exists 0%nat, []. repeat split; left; reflexivity.
-  - cbn [cut_ok] in Hc. destruct (Nat.eqb (length B) 0) eqn:E0.
-    + apply Nat.eqb_eq in E0. destruct B; [|discriminate]. exists 0%nat, []. split; [reflexivity|]. split; [exact E | left; reflexivity].
-    + destruct (Nat.ltb (length B) (length f)) eqn:E1.
-      * apply Nat.ltb_lt in E1. apply Nat.leb_le in Hc. cbn [concat] in E.
-        apply app_eq_app in E as [l [[EB ER]|[Ef ER]]].
-        -- rewrite EB, app_length in E1. lia.
-        -- exists 0%nat, B. split; [reflexivity|]. split; [cbn [skipn concat]; rewrite Ef, ER, app_assoc; reflexivity|].
-           right. split; [assumption|]. exists f, fs, l. split; [reflexivity|]. split; [assumption|].
-           intro El. subst l. rewrite app_nil_r in Ef. subst f. lia.
-      * apply Nat.ltb_ge in E1. cbn [concat] in E.
-        assert (Hl : exists l, B = f ++ l /\ concat fs = l ++ R).
-        { apply app_eq_app in E as [l [[EB ER]|[Ef ER]]].
-          - exists l. split; assumption.
-          - assert (l = []) by (rewrite Ef, app_length in E1; destruct l; [reflexivity | cbn in E1; lia]).
-            subst l. rewrite app_nil_r in Ef. subst f. exists []. rewrite app_nil_r. split; [reflexivity | cbn in ER; cbn; congruence]. }
-        destruct Hl as [l [EB EC]].
-        assert (Hc' : cut_ok fs (length l) = true).
-        { rewrite EB, app_length in Hc. replace (length f + length l - length f)%nat with (length l) in Hc by lia. exact Hc. }
-        destruct (IH l R (eq_sym EC) Hc') as [j [P' [E1' [E2' E3']]]].
-        exists (S j), P'. cbn [firstn skipn concat]. split; [rewrite EB, E1', app_assoc; reflexivity|].
-        split; assumption.
+  intros A l l2 M r E H. apply (f_equal (firstn (length l))) in E.
+  rewrite firstn_exact, firstn_app in E. replace (length l - length M)%nat with 0%nat in E by lia.
+  cbn [firstn] in E. rewrite app_nil_r in E. exact E.
 Qed.
 
-Definition pend_ok (fms : list (str * message)) (P : str) : Prop :=
-  P = [] \/ ((6 <= length P)%nat /\ exists F dm rest Q, fms = (F, dm) :: rest /\ F = P ++ Q /\ Q <> []).
-
-Lemma frames_ok_firstn : forall G bs j fms, frames_ok G bs fms -> frames_ok G bs (firstn j fms).
+(* a buffer without a whole marker: one decode, the trailing marker prefix stays *)
+Lemma loop_no_marker : forall G bs f B acc, find_sub MARK B = None -> (length B <= f)%nat ->
+  exists pre T, B = pre ++ T /\ marker_prefix T /\ marker_tail B = length T
+    /\ reader_loop G bs (S f) B acc = (T, rev acc, 0).
 Proof.
-  intros G bs j fms H. unfold frames_ok in *. rewrite Forall_forall in *. intros x I. apply H.
-  apply (In_nth _ _ x) in I as [n [Hn En]]. rewrite <- (firstn_skipn j fms). apply in_or_app. left.
-  rewrite <- En. apply nth_In. assumption.
+  intros G bs f B acc H Hfuel. destruct (marker_tail_spec B) as [k [pre [Ek [Hk [EB Hlen]]]]].
+  exists pre, (firstn k MARK). split; [exact EB|]. split; [exists k; split; [assumption | reflexivity]|].
+  split; [rewrite Hlen; exact Ek|].
+  assert (Hd : decode G bs B true = Ok (None, Z.of_nat (length pre), None)).
+  { rewrite (decode_no_marker G bs B H), Ek. repeat f_equal.
+    rewrite EB at 1. unfold zlen. rewrite app_length, Hlen. lia. }
+  assert (Hsk : skipn (length pre) B = firstn k MARK) by (rewrite EB at 1; apply skipn_exact).
+  rewrite (reader_loop_wait G bs f B acc (length pre) Hd).
+  - rewrite Hsk. reflexivity.
+  - rewrite Hsk. apply decode_marker_prefix. exact Hk.
+  - intro Hp. rewrite EB, app_length in Hfuel. lia.
 Qed.
 
-Lemma frames_ok_skipn : forall G bs j fms, frames_ok G bs fms -> frames_ok G bs (skipn j fms).
+Lemma loop_prefix : forall G bs segs, Forall (seg_ok G bs) segs ->
+  forall Jn B S fuel acc, find_sub MARK Jn = None -> B ++ S = stream_of segs Jn -> (length B < fuel)%nat ->
+  exists B' segs' Jn' done,
+    reader_loop G bs fuel B acc = (B', rev acc ++ map delivered done, 0)
+    /\ Forall (seg_ok G bs) segs' /\ find_sub MARK Jn' = None /\ B' ++ S = stream_of segs' Jn'
+    /\ map snd segs = done ++ map snd segs' /\ (exists pre, Jn = pre ++ Jn') /\ wait_state B' segs'.
 Proof.
-  intros G bs j fms H. unfold frames_ok in *. rewrite Forall_forall in *. intros x I. apply H.
-  rewrite <- (firstn_skipn j fms). apply in_or_app. right. assumption.
+  intros G bs segs Hok. induction Hok as [|[J [F dm]] segs [HJ HF] Hok IH]; intros Jn B S fuel acc HJn E Hfuel;
+    (destruct fuel as [|f]; [lia|]).
+  - (* only the final junk is left *)
+    unfold stream_of in E. cbn [map concat app] in E.
+    assert (HB : find_sub MARK B = None) by (rewrite <- E in HJn; apply (find_sub_none_prefix _ _ _ HJn)).
+    destruct (loop_no_marker G bs f B acc HB ltac:(lia)) as [pre [T [EB [HT [_ HL]]]]].
+    exists T, [], (T ++ S), []. rewrite HL. cbn [map]. rewrite app_nil_r.
+    split; [reflexivity|]. split; [constructor|].
+    assert (EJ : Jn = pre ++ T ++ S) by (rewrite <- E, EB, <- app_assoc; reflexivity).
+    split; [rewrite EJ in HJn; apply (find_sub_none_suffix _ _ _ HJn)|].
+    split; [reflexivity|]. split; [reflexivity|]. split; [exists pre; exact EJ | left; exact HT].
+  - unfold stream_of in E. cbn [map concat] in E. unfold seg_bytes at 1 in E. cbn [fst snd] in *.
+    rewrite <- !app_assoc in E. fold (stream_of segs Jn) in E. set (Rest := stream_of segs Jn) in *.
+    destruct (frame_ok_facts _ _ _ _ HF) as [HmF HlF].
+    (* the three ways a buffer without a whole frame waits *)
+    assert (CaseJunk : forall l, J = B ++ l -> S = l ++ F ++ Rest ->
+      exists B' segs' Jn' done,
+        reader_loop G bs (Datatypes.S f) B acc = (B', rev acc ++ map delivered done, 0)
+        /\ Forall (seg_ok G bs) segs' /\ find_sub MARK Jn' = None /\ B' ++ S = stream_of segs' Jn'
+        /\ (F, dm) :: map snd segs = done ++ map snd segs' /\ (exists pre, Jn = pre ++ Jn') /\ wait_state B' segs').
+    { intros l EJ ES.
+      assert (HB : find_sub MARK B = None) by (rewrite EJ in HJ; apply (find_sub_none_prefix _ _ _ HJ)).
+      destruct (loop_no_marker G bs f B acc HB ltac:(lia)) as [pre [T [EB [HT [_ HL]]]]].
+      exists T, ((T ++ l, (F, dm)) :: segs), Jn, []. rewrite HL. cbn [map]. rewrite app_nil_r.
+      split; [reflexivity|]. split.
+      { constructor; [|assumption]. split; [|exact HF]. cbn [fst].
+        rewrite EJ, EB, <- app_assoc in HJ. apply (find_sub_none_suffix _ _ _ HJ). }
+      split; [assumption|]. split.
+      { unfold stream_of. cbn [map concat]. unfold seg_bytes at 1. cbn [fst snd].
+        rewrite ES, <- !app_assoc. reflexivity. }
+      split; [reflexivity|]. split; [exists []; reflexivity | left; exact HT]. }
+    apply app_eq_app in E as [l [[EB ER]|[EJ ES]]]; [|apply (CaseJunk l EJ ES)].
+    symmetry in ER. apply app_eq_app in ER as [l2 [[El ER2]|[EF2 ES2]]].
+    + (* B = J ++ F ++ l2: deliver and go on *)
+      subst l B.
+      pose proof (frame_ok_decode G bs J F dm l2 true HJ HF) as Hd.
+      cbn [reader_loop]. rewrite Hd.
+      assert (Hpos : (0 <? zlen J + zlen F)%Z = true) by (unfold zlen; lia). rewrite Hpos.
+      assert (Hn : Z.to_nat (zlen J + zlen F) = length (J ++ F)) by (unfold zlen; rewrite app_length; lia).
+      rewrite Hn, app_assoc, skipn_exact.
+      assert (Hf2 : (length l2 < f)%nat) by (rewrite !app_length in Hfuel; lia).
+      destruct (IH Jn l2 S f ((dm, F) :: acc) HJn (eq_sym ER2) Hf2)
+        as [B' [segs' [Jn' [done [HL [Hok' [HJn' [EB' [Emap [Hpre Hw]]]]]]]]]].
+      exists B', segs', Jn', ((F, dm) :: done). rewrite HL. cbn [rev map delivered fst snd].
+      rewrite <- app_assoc. split; [reflexivity|]. repeat (split; [assumption|]).
+      split; [cbn [map snd]; rewrite Emap; reflexivity|]. split; assumption.
+    + (* B = J ++ l with l a prefix of F *)
+      destruct l2 as [|q l2].
+      * (* l = F, nothing behind it yet: deliver *)
+        rewrite app_nil_r in EF2. subst l B. cbn [app] in ES2.
+        pose proof (frame_ok_decode G bs J F dm [] true HJ HF) as Hd. rewrite app_nil_r in Hd.
+        cbn [reader_loop]. rewrite Hd.
+        assert (Hpos : (0 <? zlen J + zlen F)%Z = true) by (unfold zlen; lia). rewrite Hpos.
+        assert (Hn : Z.to_nat (zlen J + zlen F) = length (J ++ F)) by (unfold zlen; rewrite app_length; lia).
+        rewrite Hn, skipn_all.
+        assert (Hf2 : (length (@nil N) < f)%nat) by (rewrite app_length in Hfuel; cbn [length]; lia).
+        assert (E0 : [] ++ S = Rest) by (cbn [app]; assumption).
+        destruct (IH Jn [] S f ((dm, F) :: acc) HJn E0 Hf2)
+          as [B' [segs' [Jn' [done [HL [Hok' [HJn' [EB' [Emap [Hpre Hw]]]]]]]]]].
+        exists B', segs', Jn', ((F, dm) :: done). rewrite HL. cbn [rev map delivered fst snd].
+        rewrite <- app_assoc. split; [reflexivity|]. repeat (split; [assumption|]).
+        split; [cbn [map snd]; rewrite Emap; reflexivity|]. split; assumption.
+      * assert (HQ : q :: l2 <> []) by discriminate. set (Q := q :: l2) in *.
+        destruct (Nat.le_gt_cases 6 (length l)) as [H6|H5].
+        -- (* at least 6 bytes of the frame: the junk goes, the prefix waits *)
+           subst B. pose proof (frame_ok_wait G bs J F dm l Q HJ HF EF2 HQ H6) as Hd.
+           assert (Hd0 : decode G bs l true = Ok (None, 0%Z, None))
+             by (exact (frame_ok_wait G bs [] F dm l Q eq_refl HF EF2 HQ H6)).
+           rewrite (reader_loop_wait G bs f (J ++ l) acc (length J) Hd);
+             [ | rewrite skipn_exact; exact Hd0 | intro; rewrite app_length in Hfuel; lia ].
+           rewrite skipn_exact.
+           exists l, (([], (F, dm)) :: segs), Jn, []. cbn [map]. rewrite app_nil_r.
+           split; [reflexivity|]. split; [constructor; [split; [reflexivity | exact HF] | assumption]|].
+           split; [assumption|]. split.
+           { unfold stream_of. cbn [map concat]. unfold seg_bytes at 1. cbn [fst snd app].
+             rewrite ES2, EF2, <- !app_assoc. reflexivity. }
+           split; [reflexivity|]. split; [exists []; reflexivity|].
+           right. exists F, dm, segs, Q. repeat split; assumption.
+        -- destruct l as [|c l'].
+           ++ (* B = J *) rewrite app_nil_r in EB. cbn [app] in EF2, ES2.
+              apply (CaseJunk [] (eq_sym (eq_trans (app_nil_r B) EB))).
+              rewrite ES2, <- EF2. reflexivity.
+           ++ (* 1..5 bytes of the marker of F: they stay, the junk goes *)
+              assert (Hl1 : (1 <= length (c :: l'))%nat) by (cbn [length]; lia).
+              remember (c :: l') as l eqn:Hl0. clear Hl0.
+              assert (El : l = firstn (length l) MARK).
+              { apply prefixb_spec in HmF as [r Er]. rewrite Er in EF2. symmetry in EF2.
+                apply (prefix_firstn l Q MARK r EF2). cbn [length MARK]. lia. }
+              assert (Hp : (1 <= length l <= 5)%nat) by lia.
+              assert (HB : find_sub MARK B = None) by (rewrite EB, El; apply junk_partial_no_mark; [assumption | lia]).
+              destruct (loop_no_marker G bs f B acc HB ltac:(lia)) as [pre [T [EB2 [HT [Hmt HL]]]]].
+              assert (ET : length T = length l) by (rewrite <- Hmt, EB, El; rewrite (marker_tail_partial J _ Hp); rewrite <- El; reflexivity).
+              assert (T = l /\ pre = J).
+              { rewrite EB in EB2. apply (f_equal (@rev N)) in EB2. rewrite !rev_app_distr in EB2.
+                assert (E1 : rev l = rev T).
+                { apply (f_equal (firstn (length (rev l)))) in EB2. rewrite firstn_exact in EB2.
+                  rewrite rev_length, <- ET, <- (rev_length T), firstn_exact in EB2. exact EB2. }
+                apply (f_equal (@rev N)) in E1. rewrite !rev_involutive in E1. subst T.
+                apply app_inv_head in EB2. apply (f_equal (@rev N)) in EB2. rewrite !rev_involutive in EB2.
+                split; [reflexivity | symmetry; exact EB2]. }
+              destruct H as [ETl Epre]. subst T pre.
+              exists l, (([], (F, dm)) :: segs), Jn, []. rewrite HL. cbn [map]. rewrite app_nil_r.
+              split; [reflexivity|]. split; [constructor; [split; [reflexivity | exact HF] | assumption]|].
+              split; [assumption|]. split.
+              { unfold stream_of. cbn [map concat]. unfold seg_bytes at 1. cbn [fst snd app].
+                rewrite ES2, EF2, <- !app_assoc. reflexivity. }
+              split; [reflexivity|]. split; [exists []; reflexivity | left; exact HT].
 Qed.
 
-Lemma run_chunks : forall G bs chunks fms P,
-  frames_ok G bs fms -> P ++ concat chunks = concat (map fst fms) -> pend_ok fms P ->
-  forallb (cut_ok (map fst fms)) (cut_positions (length P) chunks) = true ->
-  reader_run G bs P chunks = ([], map swap fms, map (fun _ => 0) chunks).
+(* ------------------------------------------------------------------ induction over the reads *)
+
+Lemma stream_cons_len : forall J F dm segs Jn, (length F <= length (stream_of ((J, (F, dm)) :: segs) Jn))%nat.
 Proof.
-  intros G bs chunks. induction chunks as [|c cs IH]; intros fms P Hok E HP Hcuts.
+  intros. unfold stream_of. cbn [map concat]. unfold seg_bytes at 1. cbn [fst snd]. rewrite !app_length. lia.
+Qed.
+
+Lemma run_any : forall G bs chunks segs Jn B,
+  Forall (seg_ok G bs) segs -> find_sub MARK Jn = None -> wait_state B segs ->
+  B ++ concat chunks = stream_of segs Jn ->
+  exists resid,
+    reader_run G bs B chunks = (resid, map delivered (map snd segs), map (fun _ => 0) chunks)
+    /\ marker_prefix resid /\ exists pre, Jn = pre ++ resid.
+Proof.
+  intros G bs chunks. induction chunks as [|c cs IH]; intros segs Jn B Hok HJn Hw E.
   - cbn [concat] in E. rewrite app_nil_r in E.
-    assert (fms = [] /\ P = []).
-    { destruct HP as [EP|[HL [F [dm [rest [Q [Ef [EF HQ]]]]]]]].
-      - rewrite EP in E. pose proof (frames_length G bs fms Hok) as L. rewrite <- E in L.
-        destruct fms; [split; [reflexivity | assumption] | cbn in L; lia].
-      - rewrite Ef in E. cbn [map concat fst] in E. rewrite EF in E. apply (f_equal (@length N)) in E.
-        rewrite !app_length in E. destruct Q; [contradiction | cbn in E; lia]. }
-    destruct H as [E1 E2]. subst. reflexivity.
-  - cbn [concat] in E. rewrite app_assoc in E.
-    cbn [cut_positions forallb] in Hcuts. apply andb_true_iff in Hcuts as [Hc Hcuts].
-    rewrite <- app_length in Hc.
-    destruct (decompose (map fst fms) (P ++ c) (concat cs) E Hc) as [j [P' [EB [ER HP']]]].
-    rewrite firstn_map in EB. rewrite skipn_map in ER, HP'.
-    assert (Hw : wait_ok G bs P').
-    { destruct HP' as [EP|[HL [F [rest [Q [Es [EF HQ]]]]]]]; [left; assumption | right].
-      destruct (skipn j fms) as [|[F2 dm2] rest2] eqn:Esk; [discriminate|].
-      cbn [map fst] in Es. injection Es as EF2 _. subst F2.
-      pose proof (frames_ok_skipn G bs j fms Hok) as Hsk. rewrite Esk in Hsk. inversion Hsk as [|? ? HF _]; subst.
-      exists (P' ++ Q), dm2, Q. repeat split; assumption. }
-    cbn [reader_run map].
-    rewrite (reader_step_frames G bs P c (firstn j fms) P' (frames_ok_firstn G bs j fms Hok) Hw EB).
-    assert (HP2 : pend_ok (skipn j fms) P').
-    { destruct HP' as [EP|[HL [F [rest [Q [Es [EF HQ]]]]]]]; [left; assumption | right]. split; [assumption|].
-      destruct (skipn j fms) as [|[F2 dm2] rest2] eqn:Esk; [discriminate|].
-      cbn [map fst] in Es. injection Es as EF2 Er. exists F2, dm2, rest2, Q. subst F2. repeat split; assumption. }
-    assert (Hcuts2 : forallb (cut_ok (map fst (skipn j fms))) (cut_positions (length P') cs) = true).
-    { rewrite <- app_length in Hcuts. rewrite EB, app_length, cut_positions_shift in Hcuts.
-      rewrite forallb_forall in *. intros x I. rewrite <- skipn_map, <- cut_ok_shift, firstn_map.
-      apply Hcuts. apply in_map. assumption. }
-    rewrite (IH (skipn j fms) P' (frames_ok_skipn G bs j fms Hok) ER HP2 Hcuts2).
-    rewrite <- map_app, firstn_skipn. reflexivity.
-Qed.
-
-(* for all chunkings whose cuts are at frame boundaries or at least 6 bytes into a frame the reader
-   delivers exactly the frames, in order, and ends with an empty buffer: the same as in one read *)
-Theorem chunk_independent : forall G bs fms chunks,
-  frames_ok G bs fms -> concat chunks = concat (map fst fms) ->
-  no_cut_inside_marker (map fst fms) chunks = true ->
-  reader_run G bs [] chunks = ([], map swap fms, map (fun _ => 0) chunks)
-  /\ reader_run G bs [] [concat (map fst fms)] = ([], map swap fms, [0]).
-Proof.
-  intros G bs fms chunks Hok E Hc. split.
-  - apply run_chunks; [assumption | exact E | left; reflexivity | exact Hc].
-  - pose proof (whole_frames G bs [fms] (Forall_cons _ Hok (Forall_nil _))) as H.
-    cbn [map concat] in H. rewrite app_nil_r in H. exact H.
+    assert (Hs : segs = []).
+    { destruct segs as [|[J [F dm]] segs]; [reflexivity | exfalso].
+      assert (HL : (length F <= length B)%nat) by (rewrite E; exact (stream_cons_len J F dm segs Jn)).
+      destruct (Forall_inv Hok) as [_ HF]. cbn [fst snd] in HF.
+      destruct (frame_ok_facts _ _ _ _ HF) as [_ H6].
+      destruct Hw as [[k [Hk EB]]|[F2 [dm2 [rest [Q [Es [EF [HQ _]]]]]]]].
+      - rewrite EB, firstn_length in HL. cbn [length MARK] in HL. lia.
+      - injection Es as _ EF2 _ _. subst F2. rewrite EF, app_length in HL. destruct Q; [contradiction|]. cbn [length] in HL. lia. }
+    subst segs. unfold stream_of in E. cbn [map concat app] in E. subst B.
+    exists Jn. split; [reflexivity|]. split; [|exists []; reflexivity].
+    destruct Hw as [Hm|[F2 [dm2 [rest [Q [Es _]]]]]]; [exact Hm | discriminate].
+  - cbn [concat] in E. rewrite app_assoc in E. cbn [reader_run]. unfold reader_step.
+    destruct (loop_prefix G bs segs Hok Jn (B ++ c) (concat cs) (S (length (B ++ c))) [] HJn E (Nat.lt_succ_diag_r _))
+      as [B' [segs' [Jn' [done [HL [Hok' [HJn' [EB' [Emap [[pre Hpre] Hw']]]]]]]]]].
+    rewrite HL. cbn [rev app].
+    destruct (IH segs' Jn' B' Hok' HJn' Hw' EB') as [resid [HR [Hm [pre' Hpre']]]].
+    exists resid. rewrite HR. split; [|split; [exact Hm|]].
+    + cbn [map]. rewrite Emap, map_app. reflexivity.
+    + exists (pre ++ pre'). rewrite Hpre, Hpre', app_assoc. reflexivity.
 Qed.
 
 (* ------------------------------------------------------------------ C03 on encoder frames *)
@@ -341,305 +383,75 @@ Proof.
   rewrite H9. apply (encode_frame_ok G HG bs m sess time raw (fst fm) sess' seq); assumption.
 Qed.
 
-Lemma encoder_frames_ok : forall G bs fms, wf_table G = true -> Forall (encoder_frame G bs) fms -> frames_ok G bs fms.
+(* deliver lemma: junk, a frame, then ANY bytes: the frame is delivered, exactly junk + frame are consumed *)
+Theorem complete_prefix : forall G bs J fm R silent, wf_table G = true -> no_mark J -> encoder_frame G bs fm ->
+  decode G bs (J ++ fst fm ++ R) silent = Ok (Some (snd fm), (zlen J + zlen (fst fm))%Z, Some (fst fm)).
 Proof.
-  intros G bs fms HG H. unfold frames_ok. eapply Forall_impl; [|exact H].
-  intros fm Hfm. apply encoder_frame_ok; assumption.
+  intros G bs J fm R silent HG HJ Hfm. apply frame_ok_decode; [exact HJ | apply encoder_frame_ok; assumption].
 Qed.
 
-Theorem complete_prefix : forall G bs fm P silent, wf_table G = true -> encoder_frame G bs fm ->
-  P = [] \/ prefixb MARK P = true ->
-  decode G bs (fst fm ++ P) silent = Ok (Some (snd fm), zlen (fst fm), Some (fst fm)).
+(* wait lemma: junk and a proper prefix of a frame: no byte of the frame is consumed.
+   With at least 6 bytes of the frame the junk is dropped; with fewer the bytes that stay are a suffix of the
+   buffer that is a proper prefix of the marker and contains the whole frame prefix *)
+Theorem wait_for_more : forall G bs J fm P Q, wf_table G = true -> no_mark J -> encoder_frame G bs fm ->
+  fst fm = P ++ Q -> Q <> [] ->
+  ((6 <= length P)%nat -> decode G bs (J ++ P) true = Ok (None, zlen J, None))
+  /\ ((1 <= length P <= 5)%nat -> decode G bs (J ++ P) true = Ok (None, zlen J, None))
+  /\ (P = [] -> exists k, (k <= 5)%nat /\ decode G bs J true = Ok (None, (zlen J - Z.of_nat k)%Z, None)
+                 /\ exists pre, J = pre ++ firstn k MARK).
 Proof.
-  intros G bs fm P silent HG Hfm HP. apply frame_ok_decode; [apply encoder_frame_ok; assumption | assumption].
+  intros G bs J fm P Q HG HJ Hfm EF HQ.
+  pose proof (encoder_frame_ok G bs fm HG Hfm) as Hok. split; [|split].
+  - intro H6. apply (frame_ok_wait G bs J (fst fm) (snd fm) P Q HJ Hok EF HQ H6).
+  - intro Hp. destruct (frame_ok_facts _ _ _ _ Hok) as [HmF _].
+    assert (El : P = firstn (length P) MARK).
+    { apply prefixb_spec in HmF as [r Er]. rewrite Er in EF. symmetry in EF.
+      apply (prefix_firstn P Q MARK r EF). cbn [length MARK]. lia. }
+    assert (HB : find_sub MARK (J ++ P) = None) by (rewrite El; apply junk_partial_no_mark; [exact HJ | lia]).
+    rewrite (decode_no_marker G bs _ HB). rewrite El at 2. rewrite (marker_tail_partial J _ Hp).
+    repeat f_equal. rewrite zlen_app. unfold zlen. lia.
+  - intro EP. destruct (marker_tail_spec J) as [k [pre [Ek [Hk [EJ _]]]]].
+    exists k. split; [exact Hk|]. split; [rewrite (decode_no_marker G bs J HJ), Ek; reflexivity | exists pre; exact EJ].
 Qed.
 
-Theorem wait_for_more : forall G bs fm P Q, wf_table G = true -> encoder_frame G bs fm ->
-  fst fm = P ++ Q -> Q <> [] -> (6 <= length P)%nat ->
-  decode G bs P true = Ok (None, 0%Z, None).
+Lemma enc_segs_ok : forall G bs segs, wf_table G = true -> Forall (enc_seg G bs) segs -> Forall (seg_ok G bs) segs.
 Proof.
-  intros G bs fm P Q HG Hfm E HQ HL.
-  apply (frame_ok_wait G bs (fst fm) (snd fm) P Q (encoder_frame_ok G bs fm HG Hfm) E HQ HL).
+  intros G bs segs HG H. eapply Forall_impl; [|exact H]. intros s [A B]. split; [exact A | apply encoder_frame_ok; assumption].
 Qed.
 
-Theorem whole_frames_enc : forall G bs (groups : list (list (str * message))),
-  wf_table G = true -> Forall (Forall (encoder_frame G bs)) groups ->
-  reader_run G bs [] (map (fun g => concat (map fst g)) groups)
-  = ([], map delivered (concat groups), map (fun _ => 0) groups).
+(* FULL STRENGTH: every stream of encoder frames, each preceded by marker-free junk, with marker-free junk
+   after the last one, under EVERY partition into reads: exactly the frames, in order; no exception; what
+   stays in the buffer is a proper prefix of the marker that ends the trailing junk *)
+Theorem chunk_independent : forall G bs segs tail chunks,
+  wf_table G = true -> Forall (enc_seg G bs) segs -> no_mark tail ->
+  concat chunks = stream_of segs tail ->
+  exists resid,
+    reader_run G bs [] chunks = (resid, map delivered (map snd segs), map (fun _ => 0) chunks)
+    /\ marker_prefix resid /\ exists pre, tail = pre ++ resid.
 Proof.
-  intros G bs groups HG H. apply whole_frames. eapply Forall_impl; [|exact H].
-  intros g Hg. apply encoder_frames_ok; assumption.
+  intros G bs segs tail chunks HG Hs Ht E.
+  apply (run_any G bs chunks segs tail [] (enc_segs_ok G bs segs HG Hs) Ht).
+  - left. exists 0%nat. split; [lia | reflexivity].
+  - exact E.
 Qed.
 
-Theorem chunk_independent_enc : forall G bs fms chunks,
-  wf_table G = true -> Forall (encoder_frame G bs) fms ->
-  concat chunks = concat (map fst fms) ->
-  no_cut_inside_marker (map fst fms) chunks = true ->
-  reader_run G bs [] chunks = ([], map delivered fms, map (fun _ => 0) chunks)
-  /\ reader_run G bs [] [concat (map fst fms)] = ([], map delivered fms, [0]).
+(* without junk: nothing is left in the buffer *)
+Theorem chunk_independent_frames : forall G bs fms chunks,
+  wf_table G = true -> Forall (encoder_frame G bs) fms -> concat chunks = concat (map fst fms) ->
+  reader_run G bs [] chunks = ([], map delivered fms, map (fun _ => 0) chunks).
 Proof.
-  intros G bs fms chunks HG H E Hc. apply chunk_independent; [apply encoder_frames_ok; assumption | assumption | assumption].
+  intros G bs fms chunks HG Hf E.
+  assert (Hs : Forall (enc_seg G bs) (map (fun fm => ([], fm)) fms)).
+  { apply Forall_map. eapply Forall_impl; [|exact Hf]. intros fm H. split; [reflexivity | exact H]. }
+  assert (Es : concat chunks = stream_of (map (fun fm => ([], fm)) fms) []).
+  { unfold stream_of. rewrite app_nil_r, map_map. rewrite E. reflexivity. }
+  destruct (chunk_independent G bs _ [] chunks HG Hs eq_refl Es) as [resid [HR [_ [pre Hpre]]]].
+  symmetry in Hpre. apply app_nil_both in Hpre as [_ Hr]. subst resid.
+  assert (Em : map snd (map (fun fm : str * message => (@nil N, fm)) fms) = fms) by (rewrite map_map; cbn [snd]; apply map_id).
+  rewrite HR. exact (f_equal (fun x => (@nil N, map delivered x, map (fun _ : str => 0) chunks)) Em).
 Qed.
 
-(* ------------------------------------------------------------------ marker-free junk *)
-
-(* a pattern whose first character does not recur in it cannot overlap itself: an occurrence cannot
-   start inside marker-free junk and run into a following occurrence *)
-Lemma prefixb_no_border_aux : forall x q s w, ~ In x q -> prefixb q s = false -> prefixb q (s ++ x :: w) = false.
-Proof.
-  intros x q. induction q as [|y q IH]; intros s w Hx H; [discriminate|].
-  destruct s as [|c s]; cbn [app prefixb] in *.
-  - destruct (y =? x) eqn:E; [apply N.eqb_eq in E; subst; exfalso; apply Hx; left; reflexivity | reflexivity].
-  - destruct (y =? c); cbn [andb] in *; [|reflexivity]. apply IH; [intro I; apply Hx; right; exact I | exact H].
-Qed.
-
-Lemma find_sub_junk : forall x p' J X, ~ In x p' ->
-  find_sub (x :: p') J = None -> prefixb (x :: p') X = true ->
-  find_sub (x :: p') (J ++ X) = Some (length J).
-Proof.
-  intros x p' J X Hx. induction J as [|c J IH]; intros HJ HX.
-  - cbn [app length]. apply find_sub_head. exact HX.
-  - cbn [app length]. rewrite find_sub_cons in *.
-    destruct (prefixb (x :: p') (c :: J)) eqn:E; [discriminate|].
-    destruct (find_sub (x :: p') J) eqn:F; [discriminate|].
-    apply prefixb_spec in HX as [r Er]. subst X.
-    assert (E2 : prefixb (x :: p') (c :: J ++ (x :: p') ++ r) = false).
-    { cbn [prefixb] in *. destruct (x =? c); cbn [andb] in *; [|reflexivity].
-      cbn [app]. apply prefixb_no_border_aux; assumption. }
-    rewrite E2, (IH eq_refl) by (apply prefixb_app). reflexivity.
-Qed.
-
-Lemma MARK_no_border : ~ In 56 [61; 70; 73; 88; 46].
-Proof. intro I. cbn in I. repeat (destruct I as [I|I]; [discriminate|]). exact I. Qed.
-
-Lemma find_mark_junk : forall J X, find_sub MARK J = None -> prefixb MARK X = true ->
-  find_sub MARK (J ++ X) = Some (length J).
-Proof. intros J X. exact (find_sub_junk 56 [61; 70; 73; 88; 46] J X MARK_no_border). Qed.
-
-(* the buffer is junk followed by one candidate frame: decode works on the candidate, but compares
-   BodyLength with the length of the WHOLE buffer and reports offsets from its start *)
-Lemma decode_junk_nocut : forall G bs J X silent,
-  find_sub MARK J = None -> prefixb MARK X = true -> find_sub MARK (skipn 5 X) = None ->
-  decode G bs (J ++ X) silent = decode_fields G bs silent (zlen (J ++ X)) (length J) X (fields_of X).
-Proof.
-  intros G bs J X silent HJ Hp Hn. rewrite decode_eq, (find_mark_junk J X HJ Hp).
-  cbv zeta. rewrite skipn_exact, Hn, firstn_all. reflexivity.
-Qed.
-
-Lemma decode_junk_cut : forall G bs J F' P silent,
-  find_sub MARK J = None ->
-  prefixb MARK (F' ++ [1]) = true -> (5 <= length F')%nat -> find_sub MARK (skipn 5 (F' ++ [1])) = None ->
-  P = [] \/ prefixb MARK P = true ->
-  decode G bs (J ++ (F' ++ [1]) ++ P) silent =
-  decode_fields G bs silent (zlen (J ++ (F' ++ [1]) ++ P)) (length J) (F' ++ [1]) (fields_of (F' ++ [1])).
-Proof.
-  intros G bs J F' P silent HJ Hp Hl Hn HP.
-  rewrite decode_eq, (find_mark_junk J _ HJ (prefixb_app_r _ _ P Hp)).
-  cbv zeta. rewrite skipn_exact.
-  assert (Hcut : match find_sub MARK (skipn 5 ((F' ++ [1]) ++ P)) with
-                 | Some k => (k + 5)%nat | None => length ((F' ++ [1]) ++ P) end = length (F' ++ [1])).
-  { rewrite (skipn_app_le 5 F' [1] Hl) in Hn.
-    rewrite <- app_assoc. rewrite (skipn_app_le 5 F' ([1] ++ P) Hl). cbn [app].
-    pose proof (find_sub_none_prefix _ _ _ Hn) as Hn'.
-    rewrite (find_sub_sep 1 MARK _ P MARK_soh_free MARK_nonempty Hn').
-    rewrite !app_length, skipn_length. cbn [length].
-    destruct HP as [HP|HP].
-    - subst P. cbn. lia.
-    - rewrite (find_sub_head _ _ HP). cbn [option_map]. lia. }
-  rewrite Hcut, firstn_exact. reflexivity.
-Qed.
-
-(* junk in front of a complete frame is skipped with it (valid_idx): consumed = |junk| + |frame| *)
-Lemma frame_ok_decode_junk : forall G bs J F dm P silent,
-  find_sub MARK J = None -> frame_ok G bs F dm -> P = [] \/ prefixb MARK P = true ->
-  decode G bs (J ++ F ++ P) silent = Ok (Some dm, (zlen J + zlen F)%Z, Some F).
-Proof.
-  intros G bs J F dm P silent HJ [f1v [f2 [rest [bl [st H]]]]] HP. cbv zeta in H.
-  destruct H as [HF [Hsoh [Hmark [Hnom [Hbl [Hlen [Hloop [Hck Hdm]]]]]]]].
-  destruct (flat_last (field T8 bs :: field T9 f1v :: f2 :: rest) ltac:(discriminate)) as [F' EF'].
-  assert (EF : F = F' ++ [1]) by congruence.
-  assert (H5 : (5 <= length F')%nat).
-  { apply prefixb_length in Hmark. rewrite EF, app_length in Hmark. cbn in Hmark. lia. }
-  rewrite EF in Hmark, Hnom. rewrite EF at 1.
-  rewrite (decode_junk_cut G bs J F' P silent HJ Hmark H5 Hnom HP).
-  rewrite <- EF. rewrite HF at 3. rewrite (fields_of_flat _ Hsoh).
-  rewrite (decode_fields_ok G bs silent _ (length J) F T8 f1v f2 rest bl st); try assumption.
-  - rewrite Hlen, Hdm. reflexivity.
-  - apply cfreeb_spec. reflexivity.
-  - rewrite Hlen, !zlen_app. unfold zlen. lia.
-Qed.
-
-(* the same behind marker-free junk, as long as junk + prefix are shorter than the frame: the junk is
-   dropped, the prefix waits.  (When |junk| + |prefix| >= |frame| the completeness test passes wrongly:
-   junk_prefix_cut_refuted.) *)
-Lemma frame_ok_wait_junk : forall G bs J F dm P Q,
-  find_sub MARK J = None -> frame_ok G bs F dm -> F = P ++ Q -> Q <> [] -> (6 <= length P)%nat ->
-  (length J + length P < length F)%nat ->
-  decode G bs (J ++ P) true = Ok (None, zlen J, None).
-Proof.
-  intros G bs J F dm P Q HJ Hok EF HQ HP Hshort.
-  destruct (frame_ok_prefix_marks G bs F dm P Q Hok EF HP) as [HmP HnP].
-  rewrite (decode_junk_nocut G bs J P true HJ HmP HnP).
-  apply (wait_fields G bs F dm P Q _ (length J) Hok EF HQ).
-  rewrite zlen_app. unfold zlen. lia.
-Qed.
-
-(* what may follow the junk in one buffer: at least one whole frame and then an allowed remainder, or
-   no whole frame and a remainder that, together with the junk, is still shorter than its frame *)
-Definition junk_tail_ok (G : group_table) (bs : str) (J : str) (fms : list (str * message)) (P : str) : Prop :=
-  (fms <> [] /\ wait_ok G bs P)
-  \/ (fms = [] /\ (P = [] \/ exists F dm Q, frame_ok G bs F dm /\ F = P ++ Q /\ Q <> [] /\ (6 <= length P)%nat
-                                       /\ (length J + length P < length F)%nat)).
-
-Lemma decode_junk_only : forall G bs J, find_sub MARK J = None -> decode G bs J true = Ok (None, zlen J, None).
-Proof. intros G bs J H. rewrite decode_eq, H. reflexivity. Qed.
-
-Lemma reader_loop_junk : forall G bs J fms P, find_sub MARK J = None -> frames_ok G bs fms ->
-  junk_tail_ok G bs J fms P -> forall fuel acc, (length fms < fuel)%nat ->
-  reader_loop G bs fuel (J ++ concat (map fst fms) ++ P) acc = (P, rev acc ++ map swap fms, 0).
-Proof.
-  intros G bs J fms P HJ Hok Htail fuel acc Hfuel.
-  destruct fuel as [|f]; [lia|].
-  destruct Htail as [[Hne HP]|[Hnil HP]].
-  - destruct fms as [|[F dm] fms]; [contradiction|]. clear Hne.
-    inversion Hok as [|? ? HF Hok']; subst. cbn [fst snd] in HF.
-    cbn [map concat fst]. rewrite <- app_assoc. cbn [reader_loop].
-    set (R := concat (map fst fms) ++ P).
-    assert (HR : R = [] \/ prefixb MARK R = true).
-    { unfold R. destruct fms as [|[F2 dm2] fms2].
-      - cbn. apply (wait_ok_mark G bs P HP).
-      - right. inversion Hok' as [|? ? HF2 _]; subst. cbn [fst snd map concat] in *.
-        destruct (frame_ok_facts _ _ _ _ HF2) as [Hm _]. rewrite <- app_assoc. apply prefixb_app_r. assumption. }
-    rewrite (frame_ok_decode_junk G bs J F dm R true HJ HF HR).
-    destruct (frame_ok_facts _ _ _ _ HF) as [_ HL].
-    assert (Hpos : (0 <? zlen J + zlen F)%Z = true) by (unfold zlen; lia). rewrite Hpos.
-    assert (Hn : Z.to_nat (zlen J + zlen F) = length (J ++ F)) by (unfold zlen; rewrite app_length; lia).
-    rewrite Hn, app_assoc, skipn_exact.
-    unfold R. rewrite (reader_loop_frames G bs fms Hok' P HP f ((dm, F) :: acc)) by (cbn [length] in Hfuel; lia).
-    cbn [rev map swap fst snd]. rewrite <- app_assoc. reflexivity.
-  - subst fms. cbn [map concat app reader_loop].
-    assert (Hd : decode G bs (J ++ P) true = Ok (None, zlen J, None)).
-    { destruct HP as [E|[F [dm [Q [HF [EF [HQ [HL Hs]]]]]]]].
-      - subst P. rewrite app_nil_r. apply decode_junk_only. exact HJ.
-      - apply (frame_ok_wait_junk G bs J F dm P Q HJ HF EF HQ HL Hs). }
-    rewrite Hd. cbn [map]. rewrite app_nil_r.
-    destruct (0 <? zlen J)%Z eqn:E.
-    + unfold zlen. rewrite Nat2Z.id, skipn_exact. reflexivity.
-    + assert (J = []) by (unfold zlen in E; destruct J; [reflexivity | cbn in E; lia]). subst J. reflexivity.
-Qed.
-
-(* (2) junk at the front of a read: skipped together with the first whole frame that follows it *)
-Theorem junk_prefix_step : forall G bs buf chunk J fms P,
-  find_sub MARK J = None -> frames_ok G bs fms -> junk_tail_ok G bs J fms P ->
-  buf ++ chunk = J ++ concat (map fst fms) ++ P ->
-  reader_step G bs buf chunk = (P, map swap fms, 0).
-Proof.
-  intros G bs buf chunk J fms P HJ Hok Htail E. unfold reader_step. rewrite E.
-  rewrite (reader_loop_junk G bs J fms P HJ Hok Htail); [reflexivity|].
-  pose proof (frames_length G bs fms Hok). rewrite !app_length. lia.
-Qed.
-
-Lemma reader_run_app : forall G bs cs1 cs2 buf,
-  reader_run G bs buf (cs1 ++ cs2) =
-  let '(b1, o1, s1) := reader_run G bs buf cs1 in
-  let '(b2, o2, s2) := reader_run G bs b1 cs2 in (b2, o1 ++ o2, s1 ++ s2).
-Proof.
-  intros G bs cs1. induction cs1 as [|c cs1 IH]; intros cs2 buf.
-  - cbn [app reader_run]. destruct (reader_run G bs buf cs2) as [[b o] st]. reflexivity.
-  - cbn [app reader_run]. destruct (reader_step G bs buf c) as [[b1 o1] s1]. rewrite IH.
-    destruct (reader_run G bs b1 cs1) as [[b2 o2] s2]. destruct (reader_run G bs b2 cs2) as [[b3 o3] s3].
-    rewrite app_assoc. reflexivity.
-Qed.
-
-(* every read = marker-free junk (possibly empty) followed by whole frames (possibly none) *)
-Theorem junk_prefix_whole_frames : forall G bs (groups : list (str * list (str * message))),
-  Forall (fun g => find_sub MARK (fst g) = None /\ frames_ok G bs (snd g)) groups ->
-  reader_run G bs [] (map (fun g => fst g ++ concat (map fst (snd g))) groups)
-  = ([], map swap (concat (map snd groups)), map (fun _ => 0) groups).
-Proof.
-  intros G bs groups H. induction H as [|[J g] groups [HJ Hg] _ IH]; [reflexivity|].
-  cbn [map reader_run fst snd] in *.
-  assert (Ht : junk_tail_ok G bs J g []).
-  { destruct g; [right; split; [reflexivity | left; reflexivity] | left; split; [discriminate | left; reflexivity]]. }
-  rewrite (junk_prefix_step G bs [] _ J g [] HJ Hg Ht) by (rewrite app_nil_r; reflexivity).
-  rewrite IH. cbn [concat]. rewrite map_app. reflexivity.
-Qed.
-
-(* (1) junk-only reads at frame boundaries: the stream is cut at some frame boundaries into blocks, each
-   block is chunked with allowed cuts, and after each block any number of marker-free reads arrive *)
-Definition block_ok (G : group_table) (bs : str) (b : block) : Prop :=
-  frames_ok G bs (block_frames b)
-  /\ concat (block_chunks b) = concat (map fst (block_frames b))
-  /\ no_cut_inside_marker (map fst (block_frames b)) (block_chunks b) = true
-  /\ Forall (fun J => find_sub MARK J = None) (block_junk b).
-
-Lemma junk_reads_run : forall G bs junk, Forall (fun J => find_sub MARK J = None) junk ->
-  reader_run G bs [] junk = ([], [], map (fun _ => 0) junk).
-Proof.
-  intros G bs junk H. induction H as [|J junk HJ _ IH]; [reflexivity|].
-  cbn [reader_run map].
-  rewrite (junk_prefix_step G bs [] J J [] [] HJ (Forall_nil _)) by
-    (try (right; split; [reflexivity | left; reflexivity]); cbn; rewrite !app_nil_r; reflexivity).
-  rewrite IH. reflexivity.
-Qed.
-
-Theorem junk_reads_skipped : forall G bs (blocks : list block),
-  Forall (block_ok G bs) blocks ->
-  reader_run G bs [] (concat (map block_reads blocks))
-  = ([], map swap (concat (map block_frames blocks)), map (fun _ => 0) (concat (map block_reads blocks))).
-Proof.
-  intros G bs blocks H. induction H as [|b blocks [Hf [Hc [Hcut Hj]]] _ IH]; [reflexivity|].
-  cbn [map concat]. rewrite reader_run_app. unfold block_reads at 1. rewrite reader_run_app.
-  destruct (chunk_independent G bs (block_frames b) (block_chunks b) Hf Hc Hcut) as [H1 _].
-  rewrite H1, (junk_reads_run G bs (block_junk b) Hj), IH.
-  rewrite app_nil_r, !map_app. unfold block_reads. rewrite !map_app. reflexivity.
-Qed.
-
-(* ---------- the junk theorems on encoder frames ---------- *)
-
-Lemma enc_wait_ok_wait : forall G bs P, wf_table G = true -> enc_wait_ok G bs P -> wait_ok G bs P.
-Proof.
-  intros G bs P HG [E|[fm [Q [Hfm [EF [HQ HL]]]]]]; [left; assumption | right].
-  exists (fst fm), (snd fm), Q. repeat split; try assumption. apply encoder_frame_ok; assumption.
-Qed.
-
-Lemma enc_junk_tail : forall G bs J fms P, wf_table G = true -> enc_junk_tail_ok G bs J fms P -> junk_tail_ok G bs J fms P.
-Proof.
-  intros G bs J fms P HG [[Hne HP]|[Hnil HP]].
-  - left. split; [assumption | apply enc_wait_ok_wait; assumption].
-  - right. split; [assumption|]. destruct HP as [E|[fm [Q [Hfm [EF [HQ [HL Hs]]]]]]]; [left; assumption | right].
-    exists (fst fm), (snd fm), Q. repeat split; try assumption. apply encoder_frame_ok; assumption.
-Qed.
-
-Theorem junk_prefix_same_read_enc : forall G bs buf chunk J fms P,
-  wf_table G = true -> find_sub MARK J = None -> Forall (encoder_frame G bs) fms ->
-  enc_junk_tail_ok G bs J fms P -> buf ++ chunk = J ++ concat (map fst fms) ++ P ->
-  reader_step G bs buf chunk = (P, map delivered fms, 0).
-Proof.
-  intros G bs buf chunk J fms P HG HJ Hf Ht E.
-  apply (junk_prefix_step G bs buf chunk J fms P HJ (encoder_frames_ok G bs fms HG Hf) (enc_junk_tail G bs J fms P HG Ht) E).
-Qed.
-
-Theorem junk_prefix_whole_frames_enc : forall G bs (groups : list (str * list (str * message))),
-  wf_table G = true ->
-  Forall (fun g => find_sub MARK (fst g) = None /\ Forall (encoder_frame G bs) (snd g)) groups ->
-  reader_run G bs [] (map (fun g => fst g ++ concat (map fst (snd g))) groups)
-  = ([], map delivered (concat (map snd groups)), map (fun _ => 0) groups).
-Proof.
-  intros G bs groups HG H. apply junk_prefix_whole_frames. eapply Forall_impl; [|exact H].
-  intros g [A B]. split; [assumption | apply encoder_frames_ok; assumption].
-Qed.
-
-Theorem junk_reads_skipped_enc : forall G bs (blocks : list block),
-  wf_table G = true -> Forall (enc_block_ok G bs) blocks ->
-  reader_run G bs [] (concat (map block_reads blocks))
-  = ([], map delivered (concat (map block_frames blocks)), map (fun _ => 0) (concat (map block_reads blocks))).
-Proof.
-  intros G bs blocks HG H. apply junk_reads_skipped. eapply Forall_impl; [|exact H].
-  intros b [A [B [C D]]]. split; [apply encoder_frames_ok; assumption | split; [assumption | split; assumption]].
-Qed.
-
-(* ------------------------------------------------------------------ D6 witnesses on encoder frames *)
+(* ------------------------------------------------------------------ the former D6 / D8 witnesses, now positive *)
 From Coq Require Import String Ascii.
 From AFGen Require Import GenGroups.
 
@@ -652,95 +464,56 @@ Definition ex_FA : str := ex_frame_at 17 ex_mA.
 Definition ex_FB : str := ex_frame_at 18 ex_mB.
 Definition ex_dA : message := decoded_of beginstring ex_mA (ex_sess_at 17) (z_to_dec 17) ex_time.
 Definition ex_dB : message := decoded_of beginstring ex_mB (ex_sess_at 18) (z_to_dec 18) ex_time.
-Definition ex_stream : list (str * message) := [(ex_FA, ex_dA); (ex_FB, ex_dB)].
 Definition ex_garbage : str := txt "xyz".
+Definition ex_junk2 : str := txt "x8=FI".          (* ends in a proper prefix of the marker *)
+Definition ex_tail : str := txt "zz8=".
+Definition ex_segs : list seg := [(ex_garbage, (ex_FA, ex_dA)); (ex_junk2, (ex_FB, ex_dB))].
+Definition ex_both : list (message * str) := [(ex_dA, ex_FA); (ex_dB, ex_FB)].
 
-Lemma ex_stream_encoder : Forall (encoder_frame GenGroups.table beginstring) ex_stream.
+(* non-vacuity of chunk_independent: junk before both frames (one ending inside a marker), junk after *)
+Lemma ex_segs_encoder : Forall (enc_seg GenGroups.table beginstring) ex_segs /\ no_mark ex_tail.
 Proof.
-  constructor; [|constructor; [|constructor]].
+  split; [|vm_compute; reflexivity].
+  constructor; [|constructor; [|constructor]]; (split; [vm_compute; reflexivity|]).
   - exists ex_mA, (ex_sess_at 17), ex_time, false, (ex_sess_at 18), (z_to_dec 17).
     repeat split; vm_compute; reflexivity.
   - exists ex_mB, (ex_sess_at 18), ex_time, false, (ex_sess_at 19), (z_to_dec 18).
     repeat split; vm_compute; reflexivity.
 Qed.
 
-(* a read that ends k = 1..5 bytes into the next frame: the PRECEDING complete frame is lost
-   (for k = 1 both frames are lost); if the preceding frame was already delivered, the frame that
-   was cut is lost instead *)
-Lemma cut_in_marker_refuted : forall k, In k [1; 2; 3; 4; 5]%nat ->
-  let chunks1 := [ex_FA ++ firstn k ex_FB; skipn k ex_FB] in
-  let chunks2 := [ex_FA; firstn k ex_FB; skipn k ex_FB] in
-  Forall (encoder_frame GenGroups.table beginstring) ex_stream
-  /\ List.concat chunks1 = List.concat (List.map fst ex_stream) /\ List.concat chunks2 = List.concat (List.map fst ex_stream)
-  /\ no_cut_inside_marker (List.map fst ex_stream) chunks1 = false
-  /\ no_cut_inside_marker (List.map fst ex_stream) chunks2 = false
-  /\ reader_run GenGroups.table beginstring [] chunks1
-     = ([], if Nat.eqb k 1 then [] else [(ex_dB, ex_FB)], [0; 0])
-  /\ reader_run GenGroups.table beginstring [] chunks2 = ([], [(ex_dA, ex_FA)], [0; 0; 0])
-  /\ reader_run GenGroups.table beginstring [] [List.concat (List.map fst ex_stream)]
-     = ([], [(ex_dA, ex_FA); (ex_dB, ex_FB)], [0]).
-Proof.
-  intros k Hk. cbv zeta. split; [exact ex_stream_encoder|].
-  cbn [In] in Hk. repeat (destruct Hk as [Hk|Hk]; [subst k; repeat split; vm_compute; reflexivity|]).
-  destruct Hk.
-Qed.
-
-(* marker-free bytes after a frame, arriving in the same read, destroy that frame *)
-Lemma garbage_refuted :
-  find_sub MARK ex_garbage = None
-  /\ reader_run GenGroups.table beginstring [] [ex_FA ++ ex_garbage; ex_FB] = ([], [(ex_dB, ex_FB)], [0; 0])
-  /\ reader_run GenGroups.table beginstring [] [ex_FA; ex_FB] = ([], [(ex_dA, ex_FA); (ex_dB, ex_FB)], [0; 0]).
-Proof. repeat split; vm_compute; reflexivity. Qed.
-
-(* one-byte reads deliver nothing at all *)
-Lemma one_byte_reads_refuted :
-  let chunks := List.map (fun c => [c]) ex_FA in
-  List.concat chunks = ex_FA
-  /\ reader_run GenGroups.table beginstring [] chunks = ([], [], List.map (fun _ => 0) chunks)
-  /\ reader_run GenGroups.table beginstring [] [ex_FA] = ([], [(ex_dA, ex_FA)], [0]).
-Proof. cbv zeta. repeat split; vm_compute; reflexivity. Qed.
-
-(* non-vacuity of the chunking theorem: a chunking with cuts inside BodyLength, inside a value,
-   inside CheckSum and exactly 6 bytes into the second frame meets the hypothesis *)
-Lemma chunks_nonvacuous :
-  let chunks := [firstn 11 ex_FA; firstn 30 (skipn 11 ex_FA); firstn 43 (skipn 41 ex_FA);
-                 skipn 84 ex_FA ++ firstn 6 ex_FB; skipn 6 ex_FB] in
-  List.concat chunks = List.concat (List.map fst ex_stream)
-  /\ no_cut_inside_marker (List.map fst ex_stream) chunks = true
-  /\ reader_run GenGroups.table beginstring [] chunks
-     = ([], [(ex_dA, ex_FA); (ex_dB, ex_FB)], [0; 0; 0; 0; 0]).
-Proof. cbv zeta. repeat split; vm_compute; reflexivity. Qed.
-
-(* D8 (junk prefix counted in the completeness test): junk J in front of a frame that is cut k bytes
-   before its end, 2 <= k <= |J|: the test  BodyLength-derived length <= len(buffer)  passes, the truncated
-   frame fails its checksum and is dropped.  k = |J| + 1 is the first cut that waits correctly.
-   (k = 1 happens to work: only the final SOH is missing and is made up for by the over-long skip.) *)
-Lemma junk_prefix_cut_refuted : forall k, In k [2; 3]%nat ->
-  find_sub MARK ex_garbage = None /\ List.length ex_garbage = 3%nat /\ List.length ex_FA = 87%nat
+Lemma ex_run_junk :
+  reader_run GenGroups.table beginstring [] (List.map (fun c => [c]) (stream_of ex_segs ex_tail))
+  = (txt "8=", ex_both, List.map (fun _ => 0) (stream_of ex_segs ex_tail))
   /\ reader_run GenGroups.table beginstring []
-       [ex_garbage ++ firstn (87 - k) ex_FA; skipn (87 - k) ex_FA ++ ex_FB] = ([], [(ex_dB, ex_FB)], [0; 0])
-  /\ reader_run GenGroups.table beginstring []
-       [ex_garbage ++ firstn (87 - 4) ex_FA; skipn (87 - 4) ex_FA ++ ex_FB]
-     = ([], [(ex_dA, ex_FA); (ex_dB, ex_FB)], [0; 0])
-  /\ reader_run GenGroups.table beginstring [] [ex_garbage ++ ex_FA ++ ex_FB]
-     = ([], [(ex_dA, ex_FA); (ex_dB, ex_FB)], [0]).
+       [ex_garbage ++ ex_FA ++ ex_junk2 ++ firstn 3 ex_FB; skipn 3 ex_FB ++ ex_tail] = (txt "8=", ex_both, [0; 0]).
+Proof. split; vm_compute; reflexivity. Qed.
+
+(* D6-cut-in-marker (fixed): a read ending k = 1..5 bytes into the next frame loses nothing *)
+Lemma cut_in_marker_ok : forall k, In k [1; 2; 3; 4; 5]%nat ->
+  reader_run GenGroups.table beginstring [] [ex_FA ++ firstn k ex_FB; skipn k ex_FB] = ([], ex_both, [0; 0])
+  /\ reader_run GenGroups.table beginstring [] [ex_FA; firstn k ex_FB; skipn k ex_FB] = ([], ex_both, [0; 0; 0]).
 Proof.
   intros k Hk. cbn [In] in Hk.
-  repeat (destruct Hk as [Hk|Hk]; [subst k; repeat split; vm_compute; reflexivity|]). destruct Hk.
+  repeat (destruct Hk as [Hk|Hk]; [subst k; split; vm_compute; reflexivity|]). destruct Hk.
 Qed.
 
-(* non-vacuity of the junk theorems: junk reads (one ending in "8=FI", a proper prefix of the marker) before,
-   between and after chunked frames; junk in front of whole frames followed by the start of the next *)
-Lemma junk_nonvacuous :
-  let j2 : str := [120; 56; 61; 70; 73] in
-  find_sub MARK j2 = None
-  /\ reader_run GenGroups.table beginstring []
-       (List.concat (List.map block_reads
-          [([], [], [ex_garbage; j2]);
-           ([(ex_FA, ex_dA)], [firstn 11 ex_FA; skipn 11 ex_FA], [j2]);
-           ([(ex_FB, ex_dB)], [ex_FB], [ex_garbage; ex_garbage])]))
-     = ([], [(ex_dA, ex_FA); (ex_dB, ex_FB)], [0; 0; 0; 0; 0; 0; 0; 0])
-  /\ reader_step GenGroups.table beginstring [] (j2 ++ ex_FA ++ ex_FB ++ firstn 10 ex_FA)
-     = (firstn 10 ex_FA, [(ex_dA, ex_FA); (ex_dB, ex_FB)], 0)
-  /\ reader_step GenGroups.table beginstring [] (ex_garbage ++ firstn 83 ex_FA) = (firstn 83 ex_FA, [], 0).
-Proof. cbv zeta. repeat split; vm_compute; reflexivity. Qed.
+(* D6-garbage-after-frame (fixed): marker-free bytes after a frame in the same buffer *)
+Lemma garbage_ok :
+  reader_run GenGroups.table beginstring [] [ex_FA ++ ex_garbage; ex_FB] = ([], ex_both, [0; 0])
+  /\ reader_run GenGroups.table beginstring [] [ex_FA ++ ex_garbage ++ ex_FB] = ([], ex_both, [0]).
+Proof. split; vm_compute; reflexivity. Qed.
+
+(* one-byte reads (fixed) *)
+Lemma one_byte_reads_ok :
+  reader_run GenGroups.table beginstring [] (List.map (fun c => [c]) (ex_FA ++ ex_FB))
+  = ([], ex_both, List.map (fun _ => 0) (ex_FA ++ ex_FB)).
+Proof. vm_compute. reflexivity. Qed.
+
+(* D8-junk-prefix-counted-in-length (fixed): junk in front of a frame cut k = 1..5 bytes before its end *)
+Lemma junk_prefix_cut_ok : forall k, In k [1; 2; 3; 4; 5]%nat ->
+  reader_run GenGroups.table beginstring []
+    [ex_garbage ++ firstn (87 - k) ex_FA; skipn (87 - k) ex_FA ++ ex_FB] = ([], ex_both, [0; 0]).
+Proof.
+  intros k Hk. cbn [In] in Hk.
+  repeat (destruct Hk as [Hk|Hk]; [subst k; vm_compute; reflexivity|]). destruct Hk.
+Qed.
